@@ -11,6 +11,10 @@ GEN = os.path.join(checklib.LEAN, "Ecal", "Gen", "C12.lean")
 RULE = ("id-generator cases (mode I): 2..16 goroutines request >= 10^5 ids in total from pool.NewThreadID / "
         "erp.NewThreadID at the same moment, also while SetWorkerCount spawns workers (whose ids are collected by "
         "rendezvous tasks): no duplicate, no zero id. Directly evaluated threads request their ids concurrently. "
+        "Pool life-cycles: id-generator variants r/f request ids and collect worker ids over 1..3 restarts (JoinAll + "
+        "SetWorkerCount / processor Finish + Start): all ids ever handed out by one pool distinct; S/M/L runs restart the "
+        "processor 0..3 times first; mode L = direct threads holding ids from BEFORE the restart share blocks with sinks on "
+        "the restarted workers (occupants told apart by id and kind of thread). "
         "Other cases: case = generated ECAL program (1..3 roles, each a sequence of mutex blocks over names a,b,c, nesting <=3 incl. "
         "same-name re-entry, every exit kind n/e/r/b/c from inside a block, exits through 1..3 frames at once, "
         "non-atomic read-yield-write of a per-name global counter in every block) + thread configuration "
@@ -38,7 +42,8 @@ META = dict(
                 "released_on_every_exit + release_steps_never_block (all five outcomes), later_entrant_gets_in + "
                 "locked_has_live_holder, no_lost_update (counter = completed increments with a non-atomic read/write); "
                 "ids_distinct (thread ids handed out by the generator protocol are > 0 and pairwise distinct in every "
-                "interleaving; load-then-add counterexample), with the shape of NewThreadID re-extracted on every run."),
+                "interleaving; load-then-add and reset counterexamples), with the shape of NewThreadID and the fact that the id "
+                "counter is only ever incremented in package engine/pool (id_counter_monotone) re-extracted on every run."),
     level_note=("Trusted: Lean kernel + propext/Classical.choice/Quot.sound; that each MutexesMutex-guarded section is atomic "
                 "(the skeleton shows every table access bracketed by that one lock) and that sync.Mutex is a correct lock; "
                 "the model of the id generator (Ecal.ThreadId) and its go/ast shape extractor; the body of a block is "
@@ -244,7 +249,7 @@ def replay(ctx, path):
     for k in range(reps):
         p = subprocess.run([binp, "C12", "-one", case["payload"]], stdout=subprocess.PIPE, stderr=subprocess.STDOUT,
                            text=True, cwd=ctx.work, env=checklib.GOENV, timeout=120)
-        lines = [l for l in p.stdout.splitlines() if l.strip() and not l.startswith("Warning")]
+        lines = [l for l in p.stdout.replace("Warning: The thread pool queue is filling up ...", "").splitlines() if l.strip()]
         go = lines[0] if (lines and p.returncode in (0, 3, 4)) else "CRASH " + " ".join(p.stdout.split())[:300]
         g, tr = split_go(go)
         model = checklib.run_driver(ctx, "C12", {0: case["payload"] + "\t" + tr}, shards=1)
